@@ -23,7 +23,8 @@
 (* ind  : every physical line of F that starts a logical line is indented by   *)
 (*        this many blanks (match_case must live inside a block)               *)
 (* join : F sits inside one logical line of a simple statement: its bare       *)
-(*        newlines (bracket depth 0, no comment) are joined with backslashes   *)
+(*        newlines (bracket depth 0) are joined with backslashes, a comment    *)
+(*        ending such a line is dropped (it would hide the continuation)       *)
 (*        and the trivia behind its last token (blanks, comment, newline)      *)
 (*        goes behind the suffix, where the statement's own trailing comment   *)
 (*        is - this changes no position                                        *)
@@ -98,6 +99,9 @@ AImp     == [Alt(<<"import _, ">>, <<", _">>, <<P("body", 1), P("names", 2)>>, "
 AFrom    == [Alt(<<"from _ import _, ">>, <<", _">>, <<P("body", 1), P("names", 2)>>, "_") EXCEPT !.join = TRUE]
 AFromStar == [Alt(<<"from _ import ">>, <<"">>, <<P("body", 1), P("names", 1)>>, "*")
                EXCEPT !.join = TRUE, !.same = TRUE]
+(* names of a from-import also live in the parenthesised form, where comment lines and line breaks are legal;   *)
+(* `*` cannot (it does not parse there)                                                                        *)
+AFromPar == Own("from _ import (_,", ", _)", <<P("body", 1), P("names", 2)>>, "_")
 APatElt  == Alt(<<"match _:", " case [_,", "">>, <<"", ", _]: pass">>, Case \o <<P("patterns", 2)>>, "_")
 APatGrp  == [Alt(<<"match _:", " case (", "">>, <<"", "): pass">>, Case, "_") EXCEPT !.unwrap = TRUE]
 
@@ -149,11 +153,11 @@ BaseRow(m) ==
                                        Own("def _(" \o "*", ", _): pass", <<P("body", 1), P("args", 1), P("vararg", 1)>>, "_")>>)
     [] m = "keyword"         -> Node({"keyword"}, <<AKw>>)
     [] m = "Import_name"     -> Node({"alias"}, <<AImp>>)
-    [] m = "ImportFrom_name" -> Node({"alias"}, <<AFrom, AFromStar>>)
-    [] m = "alias"           -> Node({"alias"}, <<AImp, AFrom, AFromStar>>)
+    [] m = "ImportFrom_name" -> Node({"alias"}, <<AFrom, AFromStar, AFromPar>>)
+    [] m = "alias"           -> Node({"alias"}, <<AImp, AFrom, AFromStar, AFromPar>>)
     [] m = "_Import_names"   -> ListLR("_aliases", <<At(AImp, B1)>>, <<"names">>)
-    [] m = "_ImportFrom_names" -> ListLR("_aliases", <<At(AFrom, B1), At(AFromStar, B1)>>, <<"names">>)
-    [] m = "_aliases"        -> ListLR("_aliases", <<At(AImp, B1), At(AFrom, B1), At(AFromStar, B1)>>, <<"names">>)
+    [] m = "_ImportFrom_names" -> ListLR("_aliases", <<At(AFrom, B1), At(AFromStar, B1), At(AFromPar, B1)>>, <<"names">>)
+    [] m = "_aliases"        -> ListLR("_aliases", <<At(AImp, B1), At(AFrom, B1), At(AFromStar, B1), At(AFromPar, B1)>>, <<"names">>)
     [] m = "withitem"        -> Node({"withitem"}, <<Own("with (_,", ", _): pass", <<P("body", 1), P("items", 2)>>, "_")>>)
     [] m = "_withitems"      -> List(m, <<Own("with (_,", "): pass", B1, "_")>>, <<"items">>, 1)
     [] m = "pattern"         -> Node(PatKinds, <<APatElt, APatGrp>>)
